@@ -21,6 +21,8 @@ pub enum GenCase {
     /// statistical cell: `samples` seeds starting at `seed0`
     Stat { n: u16, p_milli: u16, directed: bool, seed0: u64, samples: u16 },
     Karate,
+    /// per-node marginals in the sparse regime: `samples` seeds from `seed0`, p = p_micro * 1e-6
+    Marginals { n: u16, p_micro: u32, directed: bool, seed0: u64, samples: u32 },
 }
 
 pub struct C16;
@@ -88,7 +90,7 @@ impl Prop for C16 {
         "C16"
     }
     fn rule(&self) -> String {
-        "exhaustive block: complete_graph(n, d) for every n in 0..=60 and both d; a sweep of p = 2^-j * 2/n (j = 0..=13) x n in {17,33,65,129} x d with 20000 (n = 129: 10000; thorough x 10) consecutive seeds each, and of p in {1e-9, 3e-9} at n = 300 with 150000 seeds (structural check only); one statistical cell per n in {2,3,5,8,13,30,60} x p in {0.05,0.2,0.5,0.8,0.95} x d with 400 (quick) / 3000 (thorough) consecutive seeds: |mean edges - pN| <= pN/(n-1) + 8 sqrt(N p (1-p)/S), and for n <= 6, p >= 0.2 every possible pair occurs at least once; the karate-club graph against the Zachary edge list exported from NetworkX. Random block: fast_gnp_random_graph(n, p, d, seed) for n in 0..=300 with p from seven classes (mid range, 1e-12..1e-7, 1-1e-12.., 1e-9*k, round values, 1e-13..1e-307, 2^-j * 2/n), single draws and batches of consecutive seeds: Ok, nodes exactly 0..n-1, no self-loop, no repeated pair (orientation-insensitive when undirected); invalid p in {0, 1, -0.25, 1.5, +-inf, -0.0} => InvalidArgument; complete graphs for sampled n in 61..=300. Non-trivial = a draw with n >= 2 that produced >= 1 edge, a statistical cell, or a complete graph with n >= 2; distinct = distinct serialised case.".into()
+        "exhaustive block: complete_graph(n, d) for every n in 0..=60 and both d; a sweep of p = 2^-j * 2/n (j = 0..=13) x n in {17,33,65,129} x d with 20000 (n = 129: 10000; thorough x 10) consecutive seeds each, and of p in {1e-9, 3e-9} at n = 300 with 150000 seeds (structural check only); one statistical cell per n in {2,3,5,8,13,30,60} x p in {0.05,0.2,0.5,0.8,0.95} x d with 400 (quick) / 3000 (thorough) consecutive seeds: |mean edges - pN| <= pN/(n-1) + 8 sqrt(N p (1-p)/S), and for n <= 6, p >= 0.2 every possible pair occurs at least once; per-node marginals (out / in / incident edge ends over 2000..400000 seeds) for 8 sparse (n, p) cells with p around 1/n^2 and 1/n: every node's count lies between Binomial(S(n-1), p) - 8 sd and that plus S p + 8 sd; the karate-club graph against the Zachary edge list exported from NetworkX. Random block: fast_gnp_random_graph(n, p, d, seed) for n in 0..=300 with p from seven classes (mid range, 1e-12..1e-7, 1-1e-12.., 1e-9*k, round values, 1e-13..1e-307, 2^-j * 2/n), single draws and batches of consecutive seeds: Ok, nodes exactly 0..n-1, no self-loop, no repeated pair (orientation-insensitive when undirected); invalid p in {0, 1, -0.25, 1.5, +-inf, -0.0} => InvalidArgument; complete graphs for sampled n in 61..=300. Non-trivial = a draw with n >= 2 that produced >= 1 edge, a statistical cell, or a complete graph with n >= 2; distinct = distinct serialised case.".into()
     }
     fn assumptions(&self) -> Vec<String> {
         vec![
@@ -121,6 +123,15 @@ impl Prop for C16 {
                         v.push(GenCase::GnpBatch { n, pclass: 6, praw: j, directed, seed0: 7_000_000 + b * 1000, count: 1000 });
                     }
                 }
+            }
+        }
+        // per-node marginals, p around 1/n^2 and 1/n (one skip of the generator then spans the
+        // whole grid, or a row): enough seeds for about 500 expected edge ends per node
+        for (n, p_micro) in [(3u16, 100_000u32), (6, 20_000), (6, 60_000), (13, 6_000), (13, 40_000), (40, 600), (40, 100), (40, 12_000)] {
+            for directed in [true, false] {
+                let per_seed = p_micro as f64 * 1e-6 * (n as f64 - 1.0);
+                let samples = ((500.0 / per_seed) as u32).clamp(2_000, 400_000) * tier.pick(1, 4);
+                v.push(GenCase::Marginals { n, p_micro, directed, seed0: 90_000_000 + n as u64 * 1_000_000 + p_micro as u64, samples });
             }
         }
         let samples = tier.pick(400, 3000);
@@ -238,6 +249,57 @@ impl Prop for C16 {
                     Ok(Ok(_)) => out.fail("fast_gnp_random_graph/invalid_p/accepted", format!("p = {} accepted", p)),
                 }
                 out.class("invalid_p");
+            }
+            GenCase::Marginals { n, p_micro, directed, seed0, samples } => {
+                // In G(n,p) every possible pair is present with probability p. The published
+                // skipping scheme gives the slot after a diagonal slot up to 2p (the allowance of
+                // the statement), every other pair exactly p. So over S seeds the number of edge
+                // ends at a node - out-edges, in-edges (directed) or incident edges (undirected) -
+                // is at least Binomial(S (n-1), p) and at most that plus Binomial(S, p) more:
+                // bounds at 8 standard deviations (false-alarm probability below 1e-14 per node).
+                let p = *p_micro as f64 * 1e-6;
+                let nn = *n as usize;
+                let mut out_deg = vec![0u64; nn];
+                let mut in_deg = vec![0u64; nn];
+                for k in 0..*samples as u64 {
+                    out.api_calls += 1;
+                    match guard(|| random::fast_gnp_random_graph(*n as i32, p, *directed, Some(seed0.wrapping_add(k)))) {
+                        Err(pm) => out.fail(format!("fast_gnp_random_graph/panic/{}", panic_class(&pm)), pm),
+                        Ok(Err(e)) => out.fail(format!("fast_gnp_random_graph/valid_p_rejected/{}", kind_of(&e)), format!("p = {}", p)),
+                        Ok(Ok(g)) => {
+                            for e in g.get_all_edges() {
+                                if e.u < 0 || e.v < 0 || e.u as usize >= nn || e.v as usize >= nn {
+                                    out.fail("fast_gnp_random_graph/nodes/foreign_node", format!("edge ({}, {})", e.u, e.v));
+                                    break;
+                                }
+                                out_deg[e.u as usize] += 1;
+                                in_deg[e.v as usize] += 1;
+                            }
+                        }
+                    }
+                    if !out.failures.is_empty() {
+                        return out;
+                    }
+                }
+                let s = *samples as f64;
+                let mean = s * (nn as f64 - 1.0) * p;
+                let sd = (s * (nn as f64 - 1.0) * p * (1.0 - p)).sqrt();
+                let lo = mean - 8.0 * sd;
+                let hi = mean + s * p + 8.0 * (sd + (s * p).sqrt());
+                for v in 0..nn {
+                    let counts: Vec<(&str, f64)> = if *directed { vec![("out", out_deg[v] as f64), ("in", in_deg[v] as f64)] } else { vec![("incident", (out_deg[v] + in_deg[v]) as f64)] };
+                    for (what, c) in counts {
+                        if c < lo || c > hi {
+                            out.fail(
+                                format!("fast_gnp_random_graph/distribution/{}_node_marginal_{}", if *directed { "directed" } else { "undirected" }, if c < lo { "too_low" } else { "too_high" }),
+                                format!("n={} p={} directed={}: node {} has {} {} edge ends over {} seeds, expected {:.1} (bounds {:.1} .. {:.1})", n, p, directed, v, c, what, samples, mean, lo, hi),
+                            );
+                            return out;
+                        }
+                    }
+                }
+                out.class("per_node_marginals_sparse_regime");
+                out.nontrivial = true;
             }
             GenCase::Stat { n, p_milli, directed, seed0, samples } => {
                 let p = *p_milli as f64 / 1000.0;
